@@ -151,8 +151,27 @@ def check(run):
             nxt = [r for r in rets if ic.cfg.node_block(r) == ic.cfg.node_block(n)]
             run.check(bool(nxt) and all('shared_ptr{}' in q.render(ic, r.get('e')).replace(' ', '') or 'channel' in q.render(ic, r.get('e')) for r in nxt), 'R5', 'refused-returns-null',
                       '%s: refusal #%d' % (S + '::internal_connect', refs), ic.loc(n), 'connection_refused is assigned without returning an empty channel', 'returns an empty channel')
-    if refs < 2:
-        run.violation('R5', 'refused-paths', S + '::internal_connect', ic.loc(), 'fewer than two refusal paths (nobody bound / not listening) assign connection_refused')
+    # both ways of not finding a listener end in connection_refused, however the tests are nested or merged: evaluated
+    # in the abstract states "nobody bound at the endpoint" and "bound but not listening"
+    refusals = [n for n in ic.all_nodes() if n['k'] == 'call' and n.get('opc') == '=' and 'connection_refused' in q.render(ic, n)]
+
+    def state(nobody):
+        def val(atom):
+            if q.strip_casts(atom)['k'] in ('un', 'bin') and not q.cmp_atom(atom):
+                return None         # compound: decided from its operands (q.eval3)
+            t = q.render(ic, q.strip_casts(atom))
+            c = q.cmp_atom(atom)
+            if c and 'm_listen_sockets.end()' in t:
+                return (c[0] == '==') == nobody if c[0] in ('==', '!=') else None
+            if t.endswith('internal_is_listening()'):
+                return None if nobody else False
+            return None
+        return val
+    okA = bool(refusals) and not q.exit_reachable_under(ic, None, refusals, state(True))
+    okB = bool(refusals) and not q.exit_reachable_under(ic, None, refusals, state(False))
+    run.check(okA and okB, 'R5', 'refused-paths', S + '::internal_connect', ic.loc(),
+              'a connect to an endpoint where %s does not end in ec = connection_refused on every path' % ('nobody is bound' if not okA else 'a socket is bound but not listening'),
+              'both "nobody bound" and "not listening" assign connection_refused on every path')
     il = fx.fn1(A + '::internal_is_listening')
     run.touch(il)
     r = q.returns(il)
